@@ -71,6 +71,24 @@ Proof.
 Qed.
 Print Assumptions C11_no_raise_refuted.
 
+(* The same refutation at the other raising statement of a call (finding F14c): the caller finds no
+   func_code.py (the clearer removed it), goes to _write_func_code > store_cached_func_code > mkdirp >
+   os.makedirs, sees the module directory exist, the clearer removes it, mkdir(function directory) raises
+   FileNotFoundError.  The rely condition of C11_no_raise_partial ("no participant clears") is what is violated. *)
+Theorem C11_no_raise_refuted_makedirs :
+  exists (s : fs) (evs : list event),
+    InvB Toy.pickle Toy.meta Toy.code Toy.f 1 s /\
+    snd (grun evs (s, [Some (Toy.session 1 5 None [AReduce []; ACall 1]); Some (Toy.session 1 6 None [AClear])]))
+    = [Some (Ret [ODone; OExn FileNotFoundError]); Some (Ret [ODone])].
+Proof.
+  exists toy_s1, f14c_sched. split.
+  - exact (proj2 (recover_B Toy.pickle Toy.unpickle Toy.meta Toy.parse_meta Toy.code Toy.code_eq Toy.decodes
+             Toy.gitbytes Toy.f 1 toy_unpickle_pickle (fun j => toy_decodes_prefix 1 j eq_refl) 1 None [1; 2] []
+             (InvB_empty Toy.pickle Toy.meta Toy.code Toy.f 1))).
+  - exact f14c_witness.
+Qed.
+Print Assumptions C11_no_raise_refuted_makedirs.
+
 (* What is true: when the cache is warm (the directories exist and func_code.py holds the current
    source) and no participant clears (Memory.clear / MemorizedFunc.clear) -- calls with or without
    a validation callback and reduce_size in any number and order -- no call raises and every call
